@@ -71,13 +71,14 @@ def intersect_plane_plane(plane_a, plane_b):
     n2_m = plane_b.n.magnitude_squared
     n1d2 = plane_a.n.dot(plane_b.n)
     det = n1_m * n2_m - n1d2 ** 2
-    if det == 0:  # parallel
+    direction = plane_a.n.cross(plane_b.n)
+    if det <= 0 or direction.magnitude_squared == 0:  # parallel
         return None
     c1 = (plane_a.k * n2_m - plane_b.k * n1d2) / det
     c2 = (plane_b.k * n1_m - plane_a.k * n1d2) / det
     return Point3D(c1 * plane_a.n.x + c2 * plane_b.n.x,
                    c1 * plane_a.n.y + c2 * plane_b.n.y,
-                   c1 * plane_a.n.z + c2 * plane_b.n.z), plane_a.n.cross(plane_b.n)
+                   c1 * plane_a.n.z + c2 * plane_b.n.z), direction
 
 
 def closest_point3d_on_line3d(point, line_ray):
